@@ -557,7 +557,7 @@ def minimize_artifact(binary, path, workdir):
 
 # ---------------------------------------------------------------------------------------------- check driver
 
-WRAPS = ["pthread_mutexattr_init", "pthread_mutexattr_settype", "pthread_create", "pthread_join", "sched_yield", "usleep", "clock_gettime", "pthread_mutex_init", "pthread_mutex_destroy", "pthread_mutex_lock", "pthread_mutex_trylock",
+WRAPS = ["nanosleep", "clock_nanosleep", "pthread_cond_clockwait", "sem_clockwait", "pthread_mutexattr_init", "pthread_mutexattr_settype", "pthread_create", "pthread_join", "sched_yield", "usleep", "clock_gettime", "pthread_mutex_init", "pthread_mutex_destroy", "pthread_mutex_lock", "pthread_mutex_trylock",
          "pthread_mutex_unlock", "pthread_cond_init", "pthread_cond_destroy", "pthread_cond_wait", "pthread_cond_timedwait", "pthread_cond_signal", "pthread_cond_broadcast",
          "sem_init", "sem_destroy", "sem_post", "sem_wait", "sem_timedwait", "sem_trywait"]
 
